@@ -2,7 +2,8 @@
    Directives: exactly those of ExtrOcamlBasic; N, positive, nat, Z stay inductive. *)
 Require Extraction.
 Require ExtrOcamlBasic.
-From Pika Require Import Base.Conc Model.Sender Model.Handoff.
+From Pika Require Import Base.Conc Model.Sender Model.Handoff Model.SenderLedger.
 Extraction Language OCaml.
 Extraction "m.ml" sigs den sync_wait start_detached sends_done join_seq
-  h_trace h_init h_locals w_trace w_init w_locals w_expected.
+  h_trace h_init h_locals w_trace w_init w_locals w_expected
+  ledger nouse_ok upto_term.
